@@ -647,8 +647,12 @@ def grid_to_table(grid):
     if hasattr(grid, "data_vars"):
         # It's a Dataset
         data_names = list(grid.data_vars.keys())
-        data_arrays = [grid[name].values.ravel() for name in data_names]
         coordinate_names = list(grid[data_names[0]].dims)
+        # Ravel every variable in the dimension order of the first one
+        data_arrays = [
+            grid[name].transpose(*coordinate_names).values.ravel()
+            for name in data_names
+        ]
     else:
         # It's a DataArray
         data_names = [grid.name if grid.name is not None else "scalars"]
@@ -661,8 +665,11 @@ def grid_to_table(grid):
     coordinates = [i.ravel() for i in np.meshgrid(east, north)][::-1]
     # Identify and add extra coordinates
     extra = [coord for coord in grid.coords.keys() if coord not in coordinate_names]
+    dims = tuple(coordinate_names[:2])
     for coord in extra:
-        coordinates.append(grid[coord].values.ravel())
+        coordinates.append(
+            grid[coord].transpose(*dims, missing_dims="ignore").values.ravel()
+        )
         coordinate_names.append(coord)
     data_dict = dict(zip(coordinate_names, coordinates))
     data_dict.update(dict(zip(data_names, data_arrays)))
